@@ -119,8 +119,14 @@ def gen_sig(rng, k):
 
 def sig_source(s):
     gens = []
+    where = []
+    # a third of the signatures state their bounds in a where clause instead of the generics list
+    use_where = (sum(map(ord, s.holder)) + len(s.bounds)) % 3 == 0
     for lt in s.lts:
         bs = sorted(b for a, b in s.bounds if a == lt)
+        if use_where and bs:
+            where.append("'%s: %s" % (lt, " + ".join("'" + b for b in bs)))
+            bs = []
         gens.append("'%s%s" % (lt, (": " + " + ".join("'" + b for b in bs)) if bs else ""))
     ps = []
     if s.self_lt != "none":
@@ -128,7 +134,8 @@ def sig_source(s):
     ps += ["%s: %s" % (p[0], p[2]) for p in s.params]
     ig = "<'h>" if s.impl_lts else ""
     decl = "    #[diplomat::opaque] pub struct %s%s(pub %s);\n" % (s.holder, ig, "&'h u8" if s.impl_lts else "u8")
-    return decl + "    impl%s %s%s {\n        pub fn m<%s>(%s) -> %s { unimplemented!() }\n    }\n" % (ig, s.holder, ig, ", ".join(gens), ", ".join(ps), s.ret)
+    return decl + "    impl%s %s%s {\n        pub fn m<%s>(%s) -> %s%s { unimplemented!() }\n    }\n" % (ig, s.holder, ig, ", ".join(gens), ", ".join(ps), s.ret,
+                                                                                                          (" where " + ", ".join(where)) if where else "")
 
 
 def gen_nested_structs(rng, n=4):
